@@ -420,7 +420,7 @@ class Renderer:
     def tc(self, tag):
         """a comment where no white space may stand (inside a qualified name, inside a page selector): CSS drops comments before it parses"""
         if self.s['comments'] and self.r.random() < 0.12:
-            # (no feature tag: no recorded finding is keyed on these; both defects found with them are repaired, KF-C02-05 / KF-C03-09)
+            # (no feature tag: no recorded finding is keyed on these; both defects found with them are repaired, KF-C02-10 / KF-C03-09)
             return '/*' + self.r.choice(['', 't', '|', ':']) + '*/'
         return ''
 
